@@ -125,6 +125,13 @@ TWINS_OTHER = {  # rules that are not about layout: the twin must be rejected (o
     "char_enum_value_two_chars": {"extra_types": T_ + '<enum name="badc" encodingType="char">\n' + T_ + '    <validValue name="x">AB</validValue>\n' + T_ + '</enum>\n'},
     "enum_encoding_not_integral": {"extra_types": T_ + '<enum name="badf" encodingType="float">\n' + T_ + '    <validValue name="x">1</validValue>\n' + T_ + '</enum>\n'},
     "set_encoding_signed": {"extra_types": T_ + '<set name="bads" encodingType="int8">\n' + T_ + '    <choice name="x">1</choice>\n' + T_ + '</set>\n'},
+    # a composite that is a valid header for one use is not thereby valid for the other (group dimension vs. <data> header)
+    "group_dimension_used_as_data_header": {"_after_group": T_ + '<data name="xd" id="21" type="groupSizeEncoding"/>\n'},
+    "data_header_used_as_group_dimension": {"extra_types": T_ + '<composite name="vd">\n' + T_ + '    <type name="length" primitiveType="uint8"/>\n' + T_ + '    <type name="varData" primitiveType="uint8" length="0"/>\n' + T_ + '</composite>\n',
+                                            "_after_group": T_ + '<data name="xd" id="21" type="vd"/>\n',
+                                            "_after_message": '    <sbe:message name="m2" id="2">\n' + T_ + '<field name="a" id="1" type="uint8"/>\n' + T_ + '<group name="g2" id="2" dimensionType="vd">\n' + T_ + '    <field name="x" id="3" type="uint8"/>\n' + T_ + '</group>\n    </sbe:message>\n'},
+    "data_header_vardata_with_length": {"extra_types": T_ + '<composite name="vdl">\n' + T_ + '    <type name="length" primitiveType="uint8"/>\n' + T_ + '    <type name="varData" primitiveType="uint8" length="4"/>\n' + T_ + '</composite>\n',
+                                        "_after_group": T_ + '<data name="xd" id="21" type="vdl"/>\n'},
     "header_without_version": {"_drop": '            <type name="version" primitiveType="uint16"/>\n'},
     "dimension_without_numingroup": {"_drop": '            <type name="numInGroup" primitiveType="uint16"/>\n'},
 }
@@ -306,6 +313,7 @@ uint32_t isalnum(uint32_t c){ return isdigit(c) || isalpha(c); }
         xml = os.path.join(work, "vs_rules_%s.xml" % name)
         text = RULES_OK % {k_: v_ for k_, v_ in params.items() if not k_.startswith("_")}
         if params.get("_after_group"): text = text.replace("        </group>\n    </sbe:message>", "        </group>\n" + params["_after_group"] + "    </sbe:message>")
+        if params.get("_after_message"): text = text.replace("    </sbe:message>\n</sbe:messageSchema>", "    </sbe:message>\n" + params["_after_message"] + "</sbe:messageSchema>")
         if params.get("_drop"):
             assert params["_drop"] in text; text = text.replace(params["_drop"], "", 1)
         open(xml, "w").write(text)
